@@ -137,6 +137,8 @@ def design_cast(writers, streamers, subs, opensubs, maxseq, maxresub, B=1):
 def design(ctx, thorough):
     """Exhaustive TLC runs on Relay.tla. Returns (states, transitions, runs)."""
     runs = []
+    never = []
+    COV_RUNS = ("qb", "qo")
     workers = min(12, vlib.NCPU) if thorough else min(8, vlib.NCPU)
 
     def go(tag, cast, props="", expect=None, deadlock=True, **kw):
@@ -145,9 +147,10 @@ def design(ctx, thorough):
             "" if deadlock else "CHECK_DEADLOCK FALSE\n")
         r = ctx.tlc(AREA, "RelayMC_" + tag, tag + ".cfg", workers=workers, timeout=3000, tag="mc_" + tag,
                     files={tag + ".cfg": cfg, "RelayMC_%s.tla" % tag: mc_module("RelayMC_" + tag, "Relay", cast)},
-                    expect_violation=expect is not None, coverage=(tag == "qb"))
+                    expect_violation=expect is not None, coverage=(tag in COV_RUNS))
         dead = any("Deadlock reached" in ln for ln in r.lines())
-        got = r.violated or ("deadlock" if dead else None)
+        temporal = any(ln.startswith("Error: Temporal propert") for ln in r.lines())
+        got = r.violated or ("deadlock" if dead else None) or ("temporal" if temporal else None)
         runs.append({"cfg": tag, "distinct": r.distinct, "generated": r.generated, "wall_s": round(r.wall, 1),
                      "result": got or "holds", "expected": expect or "holds"})
         if expect is None and got:
@@ -156,10 +159,8 @@ def design(ctx, thorough):
             raise vlib.Inconclusive("design check %s: %s on Relay.tla (spec drift?)" % (tag, got))
         if expect is not None and got != expect:
             raise vlib.Inconclusive("vacuity check %s: expected %s, TLC says %s" % (tag, expect, got))
-        if tag == "qb" and r.coverage_zero:
-            zero = [a for a in r.coverage_zero if a not in ("WriterOpen",)]
-            if zero:
-                raise vlib.Inconclusive("design check: actions never taken: %s" % zero)
+        if tag in COV_RUNS:
+            never.append(set(r.coverage_zero))
         return r
 
     k12 = [["k1", "k2"]]
@@ -179,6 +180,7 @@ def design(ctx, thorough):
     nd = design_cast(["w1"], ["s1", "s2"], [["k2"]], k12, 2, 0)
     go("nodrain_dl", nd, expect="deadlock", Ready=tla_set(["s1"]), SeparateDrain="FALSE",
        CloseModes=tla_set(["graceful"]))
+    nd = design_cast(["w1"], ["s1"], [["k2"]], k12, 3, 0)   # 3 frames: delta, inlet, and one left waiting
     go("nodrain_wp", nd, props="WritersProgress", expect="temporal", deadlock=False, Ready=tla_set(["s1"]),
        SeparateDrain="FALSE", CloseModes=tla_set(["graceful"]))
     # as-is window: DB.Close with open writers starves them (db.go documents it)
@@ -190,6 +192,9 @@ def design(ctx, thorough):
         go("tb", design_cast(["w1", "w2"], ["s1"], [["k1"], ["k2"]], k12, 2, 1, B=2), Ready=tla_set(["s1"]))
         go("tc", design_cast(["w1", "w2"], ["s1"], [["k1"], ["k2"]], [["k1", "k2"], ["k1"]], 3, 1),
            Ready=tla_set(["s1"]), CloseModes=tla_set(["graceful"]))
+    zero = set.intersection(*never) - {"WriterOpen"} if never else set()
+    if zero:
+        raise vlib.Inconclusive("design check: actions never taken: %s" % sorted(zero))
     ok = [r for r in runs if r["expected"] == "holds"]
     return sum(r["distinct"] for r in ok), sum(r["generated"] for r in ok), runs
 
@@ -299,7 +304,7 @@ def trace_cfg(p, mode):
         c, tla_set(w["id"] for w in p["writers"] if w["sync"]), SAFETY)
 
 
-def tlc_trace(ctx, p, mode, items, tag):
+def tlc_trace(ctx, p, mode, items, tag, timeout=1800):
     """items: [(scenario, events)]. One TLC run over the concatenation.
     Returns (stats, None | (position in items, index of the unexplained event, why))."""
     lines, spans = [], []
@@ -316,7 +321,7 @@ def tlc_trace(ctx, p, mode, items, tag):
     src = src.replace("MODULE RelayTrace", "MODULE " + mod).replace('"trace.ndjson"', '"%s"' % name)
     src = re.sub(r"\n=====+\s*$", lambda m: "\nMC_WKeys == %s\nMC_Auth == %s\nMC_Subs == {}\nMC_OpenSubs == {}\n====\n" % (
         wkeys_def(p), auth_def(p)), src)
-    r = ctx.tlc(AREA, mod, tag + ".cfg", workers=1, timeout=1800, tag="tv_" + tag, expect_violation=True, heap="3g",
+    r = ctx.tlc(AREA, mod, tag + ".cfg", workers=1, timeout=timeout, tag="tv_" + tag, expect_violation=True, heap="3g", deque=True,
                 files={name: "\n".join(lines) + "\n", tag + ".cfg": trace_cfg(p, mode), mod + ".tla": src})
     st = {"distinct": r.distinct, "generated": r.generated}
     hw = None
@@ -341,30 +346,47 @@ def tlc_trace(ctx, p, mode, items, tag):
 
 
 def validate(ctx, p, mode, items, tag):
-    """Validates all items; a rejection is cut out and the rest re-validated.
+    """Validates all items. First in large concatenations (depth-first, stops at the first complete
+    explanation: fast when everything is accepted); a concatenation that is rejected or does not finish
+    is re-validated scenario by scenario (a rejection needs the exhaustive search of that scenario only).
     Returns (stats, [(scenario, events, idx)])."""
+    from concurrent.futures import ThreadPoolExecutor
     stats = {"distinct": 0, "generated": 0, "accepted": 0}
     rejected = []
-    chunk = 150
-    k = 0
-    pending = list(items)
-    while pending:
-        cur, pending = pending[:chunk], pending[chunk:]
-        while cur:
-            k += 1
-            st, bad = tlc_trace(ctx, p, mode, cur, "%s_%d" % (tag, k))
-            stats["distinct"] += st["distinct"]
-            stats["generated"] += st["generated"]
-            if bad is None:
-                stats["accepted"] += len(cur)
-                break
-            pos, idx, why = bad
-            stats["accepted"] += pos
-            rejected.append((cur[pos][0], cur[pos][1], idx))
-            cur = cur[pos + 1:]
-            if len(rejected) >= 6:
-                return stats, rejected
-    return stats, rejected
+    singles = []
+    chunk = 60
+    for k in range(0, len(items), chunk):
+        cur = items[k:k + chunk]
+        try:
+            st, bad = tlc_trace(ctx, p, mode, cur, "%s_%d" % (tag, k), timeout=240 if len(cur) > 1 else 1800)
+        except vlib.Inconclusive as e:
+            if "TLC timeout" not in str(e):
+                raise
+            singles += cur
+            continue
+        stats["distinct"] += st["distinct"]
+        stats["generated"] += st["generated"]
+        if bad is None:
+            stats["accepted"] += len(cur)
+        elif len(cur) == 1:
+            rejected.append((cur[0][0], cur[0][1], bad[1]))
+        else:
+            singles += cur
+
+    def one(a):
+        n, it = a
+        return it, tlc_trace(ctx, p, mode, [it], "%s_s%d" % (tag, n), timeout=1800)
+
+    if singles:
+        with ThreadPoolExecutor(max_workers=4) as ex:
+            for it, (st, bad) in ex.map(one, list(enumerate(singles))):
+                stats["distinct"] += st["distinct"]
+                stats["generated"] += st["generated"]
+                if bad is None:
+                    stats["accepted"] += 1
+                else:
+                    rejected.append((it[0], it[1], bad[1]))
+    return stats, rejected[:6]
 
 
 # ------------------------------------------------------------------ classification
